@@ -53,14 +53,24 @@ def where(e):
     return "%s:%s" % (last.co_filename.split("/")[-1], getattr(last, "co_qualname", last.co_name))
 
 
+def _extras(obj, known):
+    """every other scalar instance attribute (e.g. a cached count that a
+    refactoring adds): part of the state, so that two objects with the same
+    contents but different hidden fields are not merged"""
+    d = getattr(obj, "__dict__", None) or {}
+    xs = sorted((k, v) for k, v in d.items()
+                if k not in known and isinstance(v, (int, float, bool, str, bytes, type(None))))
+    return ("{%s}" % ",".join("%s=%r" % kv for kv in xs)) if xs else ""
+
+
 def canon(obj):
     from whoosh import idsets
     if isinstance(obj, idsets.BitSet):
-        return "B:" + obj.bits.tobytes().hex()
+        return "B:" + obj.bits.tobytes().hex() + _extras(obj, ("bits",))
     if isinstance(obj, idsets.SortedIntSet):
-        return "S:%s%s:%s" % (obj.typecode, obj.data.typecode, ",".join(map(str, obj.data)))
+        return "S:%s%s:%s" % (obj.typecode, obj.data.typecode, ",".join(map(str, obj.data))) + _extras(obj, ("typecode", "data"))
     if isinstance(obj, idsets.ReverseIdSet):
-        return "R%d(%s)" % (obj.limit, canon(obj.idset))
+        return "R%d(%s)" % (obj.limit, canon(obj.idset)) + _extras(obj, ("limit", "idset"))
     if isinstance(obj, idsets.OnDiskBitSet):
         return "D:%d:%d" % (obj._basepos, obj._bytecount)
     if isinstance(obj, idsets.MultiIdSet):
@@ -410,6 +420,18 @@ def rebuild(path, e):
     return obj, S, limit
 
 
+def touch(obj, e):
+    T = tname(obj)
+    for name, fn in (("__len__", lambda: len(obj)), ("__bool__", lambda: bool(obj)), ("__iter__", lambda: list(obj)),
+                     ("first", lambda: obj.first()), ("last", lambda: obj.last())):
+        if (T, name) in e.unsupported:
+            continue
+        try:
+            fn()
+        except Exception:
+            pass        # (reported where the state itself was observed)
+
+
 def step(path, op, e, memo):
     """One transition from the state reached by path.  Returns
     (status, canon, S, limit, sig, what): status in ok/unsupported/fail."""
@@ -418,6 +440,10 @@ def step(path, op, e, memo):
             obj, S, limit = new_object(op)
         else:
             obj, S, limit = rebuild(path, e)
+            # the state the operation starts from has been read before (it was
+            # observed when it was reached): read it again, so that whatever a
+            # read leaves behind in the object is there when the operation runs
+            touch(obj, e)
             obj = apply_real(obj, op, e)
             S = model_apply(S, op)
             if op[0] == "copy":
